@@ -186,3 +186,29 @@ CHECKS["C11"] = {
             "the same post-conditions.",
     "note": _NOTE,
 }
+
+CHECKS["C16"] = {
+    "design_ref": "DESIGN.md section 5 C16",
+    "technique": "runtime reference-model monitor on the six segment labelling "
+                 "functions (independent frame sampler + exact-integer contingency "
+                 "table + textbook indices) and client-boundary identity checks",
+    "text": "Every observed call of pairwise, rand_index, ari, mutual_information, "
+            "nce, vmeasure (client and from segment.evaluate) agreed to 1e-9 with "
+            "the textbook formulas evaluated on the frame contingency table by an "
+            "independent exact implementation; vmeasure == nce(marginal), case "
+            "folding, MI symmetry, V = F(P,R) and ARI=1 on coinciding partitions "
+            "held on every generated pair.",
+    "note": _NOTE,
+}
+CHECKS["C17"] = {
+    "design_ref": "DESIGN.md section 5 C17",
+    "technique": "runtime reference-model monitor on hierarchy.tmeasure / lmeasure "
+                 "(O(n^3) brute-force triplet definition) incl. calls made by "
+                 "hierarchy.evaluate; parameter-fault outcomes",
+    "text": "Every observed tmeasure / lmeasure call within the size bound agreed to "
+            "1e-9 with the brute-force frame-triple definition (1-4 levels, nested "
+            "or not, window None or a lattice value incl. window == frame_size, "
+            "both transitive settings), scores were in [0,1], and frame_size <= 0 / "
+            "> window raised ValueError.",
+    "note": _NOTE,
+}
